@@ -312,4 +312,218 @@ def recv (t : Trust) (r : Rep) (forwarder : Nat) (m : Msg) : Rep :=
 def deliver (t : Trust) (r : Rep) (path : List Nat) (m : Msg) : Rep :=
   recv t r (path.getLast?.getD m.signer) m
 
+/-! ## (C) the composed replica: batching worker + replicated set + remote deliveries
+
+One replica of a cluster: the worker of (A) over the set of (B), plus the event `recv ds`: a remote
+walk (the deltas a received broadcast makes the replica fetch, in the order they are merged: newest
+first) merged between any two worker steps — also while a batch is open and while the worker stands in
+front of `Commit`. What go-ds-crdt v0.1.21 reads when:
+  * `batch.Put` (`addToDelta`) reads nothing; `batch.Delete` (`rmvToDelta` → `set.Rmv`) reads the live
+    elements of the key AT TAKE TIME and puts their tombstones into `curDelta`;
+  * `batch.Commit` (`publishDelta` → `addDAGNode`) reads the heads AT COMMIT TIME: the node's parents are
+    the current heads (remote ones included) and its priority is their greatest height + 1;
+  * a remote walk rooted at priority `p` leaves the greatest head height at `max height p`.
+DAG nodes are identified by `ctr * stride + self` (`Who`): distinct replicas create distinct ids.
+`out` is the replica's delta stream (nodes whose publish succeeded: head replaced, announced).
+`batch`, `done`, `got`, `sched` are ghost fields used by the theorems. -/
+
+structure Who where
+  self : Nat
+  stride : Nat
+  deriving DecidableEq, Repr
+
+def Who.mkId (w : Who) (c : Nat) : Id := c * w.stride + w.self
+
+def maxPrio (ds : List Delta) : Nat := ds.foldl (fun m d => max m d.prio) 0
+
+/-- merge a walk, collecting the hooks -/
+def mergeWalk (ds : List Delta) (r : Rep) : Rep × List Hook :=
+  ds.foldl (fun acc d => let m := acc.1.merge d; (m.1, acc.2 ++ m.2)) (r, [])
+
+structure CSt where
+  me : Who
+  queue : List BOp := []
+  pend : Pend := {}
+  curSize : Nat := 0
+  timer : Bool := false
+  phase : Phase := .idle
+  rep : Rep := {}
+  height : Nat := 0
+  ctr : Nat := 0                 -- local DAG nodes created so far
+  crashed : Bool := false
+  out : List Delta := []         -- delta stream, oldest first
+  batch : List BOp := []         -- ghost: operations taken into the pending delta
+  done : List (List BOp) := []   -- ghost: operations of the committed batches, aligned with `out`
+  got : List Delta := []         -- ghost: remote deltas merged
+  sched : List Ph := []          -- ghost: the phases executed on `rep`, in order
+  deriving DecidableEq, Repr
+
+inductive CEv where
+  | loc (e : Ev)
+  | recv (ds : List Delta)
+  deriving DecidableEq, Repr
+
+/-- the node a publish attempt builds now -/
+def CSt.delta (c : CSt) : Delta :=
+  { id := c.me.mkId c.ctr, prio := c.height + 1, elems := c.pend.elems, tombs := c.pend.tombs }
+
+/-- what the elements of a batch's delta are: puts in submission order, a delete drops the earlier
+    puts of its key (`updateDeltaWithRemove`) -/
+def elemsOf (ops : List BOp) : List (Key × Val) :=
+  ops.foldl (fun es o => match o with
+    | .put k v => es ++ [(k, v)]
+    | .del k => es.filter (fun e => e.1 != k)) []
+
+def CSt.publish (c : CSt) : Outcome → CSt × List Hook
+  | .ok =>
+    let m := c.rep.merge c.delta
+    ({ c with rep := m.1, height := c.height + 1, ctr := c.ctr + 1, pend := {}, out := c.out ++ [c.delta],
+              done := c.done ++ [c.batch], batch := [], sched := c.sched ++ [.T c.delta, .E c.delta] }, m.2)
+  | .failBlock => (c, [])
+  | .failTombs => (c, (c.rep.putTombs c.pend.tombs).2)
+  | .failElems =>
+    let t := c.rep.putTombs c.pend.tombs
+    ({ c with rep := t.1, ctr := c.ctr + 1, sched := c.sched ++ [.T c.delta] },
+     t.2 ++ (t.1.putElems c.delta.id c.delta.prio c.pend.elems).2)
+  | .failHeads =>
+    let m := c.rep.merge c.delta
+    ({ c with rep := m.1, ctr := c.ctr + 1, sched := c.sched ++ [.T c.delta, .E c.delta] }, m.2)
+
+def cstep (cfg : Cfg) (c : CSt) : CEv → Option (CSt × Res)
+  | .recv ds =>
+    let m := mergeWalk ds c.rep
+    some ({ c with rep := m.1, height := max c.height (maxPrio ds), got := c.got ++ ds,
+                   sched := c.sched ++ phasesOf ds }, .hooks m.2)
+  | .loc (.log o) =>
+    if c.queue.length < cfg.qcap then some ({ c with queue := c.queue ++ [o] }, .accepted)
+    else some (c, .rejected)
+  | .loc (.take addOk) =>
+    if c.crashed then none else
+    match c.phase, c.queue with
+    | .idle, o :: q =>
+      let c1 := { c with queue := q, timer := if c.curSize == 0 then true else c.timer }
+      if !addOk then some (c1, .silent)
+      else
+        let c2 := { c1 with pend := c1.pend.add c1.rep o, curSize := c1.curSize + 1, batch := c1.batch ++ [o] }
+        some (if c2.curSize < cfg.maxSize then c2 else { c2 with phase := .due false }, .silent)
+    | _, _ => none
+  | .loc .timerFire =>
+    if c.crashed then none else
+    match c.phase with
+    | .idle => if c.timer then some ({ c with timer := false, phase := .due true }, .silent) else none
+    | _ => none
+  | .loc (.commit out) =>
+    if c.crashed then none else
+    match c.phase with
+    | .idle => none
+    | .due age =>
+      if c.pend.isNil then some ({ c with crashed := true }, .silent) else
+      let p := c.publish out
+      match out, age with
+      | .ok, false => some ({ p.1 with timer := false, curSize := 0, phase := .idle }, .hooks p.2)
+      | .ok, true => some ({ p.1 with curSize := 0, phase := .idle }, .hooks p.2)
+      | _, false => some ({ p.1 with phase := .idle }, .hooks p.2)
+      | _, true => some ({ p.1 with timer := true, phase := .idle }, .hooks p.2)
+
+def crun (cfg : Cfg) : CSt → List CEv → Option (CSt × List Res)
+  | c, [] => some (c, [])
+  | c, e :: es =>
+    match cstep cfg c e with
+    | none => none
+    | some (c1, r) =>
+      match crun cfg c1 es with
+      | none => none
+      | some (c2, rs) => some (c2, r :: rs)
+
+/-- batching disabled on the composed replica (`Datastore.Put/Delete → publish`); a delete with nothing to
+    tombstone publishes nothing. Returns (state, ok?, hooks). -/
+def CSt.direct (c : CSt) (o : BOp) (out : Outcome) : CSt × Bool × List Hook :=
+  let p : Pend := ({} : Pend).add c.rep o
+  match o, p.tombs with
+  | .del _, [] => (c, true, [])
+  | _, _ =>
+    let r := ({ c with pend := p, batch := [o] }).publish out
+    ({ r.1 with pend := {}, batch := [] }, out == .ok, r.2)
+
+/-- all tracker calls of a run, in order -/
+def hooksOf : List Res → List Hook
+  | [] => []
+  | .hooks h :: rs => h ++ hooksOf rs
+  | _ :: rs => hooksOf rs
+
+/-- a run of the worker in which the batches are exactly `bs` (every batch taken, then committed
+    successfully, nothing merged from outside): state and tracker calls as a function of the batch
+    boundaries -/
+def runBatches (me : Who) : List (List BOp) → (Rep × Nat × Nat) × List Hook → (Rep × Nat × Nat) × List Hook
+  | [], acc => acc
+  | b :: bs, ((r, h, n), hk) =>
+    let p := b.foldl (fun p o => p.add r o) ({} : Pend)
+    let m := r.merge { id := me.mkId n, prio := h + 1, elems := p.elems, tombs := p.tombs }
+    runBatches me bs ((m.1, h + 1, n + 1), hk ++ m.2)
+
+/-! ### the validator gate in front of `recv` -/
+
+structure GSt where
+  c : CSt
+  t : Trust
+  deriving Repr
+
+inductive GEv where
+  | loc (e : Ev)
+  | msg (forwarder signer : Nat) (ds : List Delta)   -- a pubsub message reaching the topic validator
+  | trust (p : Nat)                                   -- Consensus.Trust
+  | distrust (p : Nat)                                -- Consensus.Distrust
+  deriving DecidableEq, Repr
+
+def gstep (cfg : Cfg) (g : GSt) : GEv → Option GSt
+  | .loc e => (cstep cfg g.c (.loc e)).map (fun p => { g with c := p.1 })
+  | .msg fw signer ds =>
+    if validate g.t fw ⟨signer, ds⟩ then (cstep cfg g.c (.recv ds)).map (fun p => { g with c := p.1 }) else some g
+  | .trust p => some { g with t := { g.t with trusted := p :: g.t.trusted } }
+  | .distrust p => some { g with t := { g.t with trusted := g.t.trusted.filter (· != p) } }
+
+def grun (cfg : Cfg) : GSt → List GEv → Option GSt
+  | g, [] => some g
+  | g, e :: es => match gstep cfg g e with
+    | none => none
+    | some g1 => grun cfg g1 es
+
+/-- the messages of a history that pass the gate, given the Trust/Distrust history preceding each:
+    everything else of the history is kept -/
+def passing (t : Trust) : List GEv → List GEv
+  | [] => []
+  | .msg fw signer ds :: es => if t.isTrusted signer then .msg fw signer ds :: passing t es else passing t es
+  | .trust p :: es => .trust p :: passing { t with trusted := p :: t.trusted } es
+  | .distrust p :: es => .distrust p :: passing { t with trusted := t.trusted.filter (· != p) } es
+  | .loc e :: es => .loc e :: passing t es
+
+/-- the same history with the forwarders forgotten (what the pinset may depend on) -/
+def GEv.authored : GEv → GEv
+  | .msg _ signer ds => .msg 0 signer ds
+  | e => e
+
+/-! ## (K) a replica with its blockstore: which DAG nodes count as processed, and `Clean`
+
+`handleBlock` ignores a broadcast head whose block is already in the blockstore and `processNode` stops
+at known children: a delta is merged only the first time its node is seen. `crdt.Clean` (behind
+`Consensus.Clean`, `state cleanup`, `state import`) deletes EVERY key under the datastore namespace: the
+set (elements, tombstones, values), the heads, and the blockstore with it — so a cleaned replica that
+is restarted on the same datastore processes every delta again. -/
+
+structure KRep where
+  rep : Rep := {}
+  known : List Id := []          -- nodes in the blockstore
+  deriving DecidableEq, Repr
+
+def KRep.handle (s : KRep) (d : Delta) : KRep :=
+  if s.known.contains d.id then s else { rep := (s.rep.merge d).1, known := d.id :: s.known }
+
+def handleAll (l : List Delta) (s : KRep) : KRep := l.foldl KRep.handle s
+
+/-- `crdt.Clean` as it is: everything under the namespace goes, the blockstore included -/
+def KRep.clean (_ : KRep) : KRep := {}
+
+/-- the alternative that keeps the (immutable, content-addressed) DAG nodes -/
+def KRep.cleanKeepBlocks (s : KRep) : KRep := { s with rep := {} }
+
 end CV.C02
